@@ -79,6 +79,9 @@ def double(pt: Point2D[Field]) -> Point2D[Field]:
     if is_inf(pt) or pt is None:
         return pt
     x, y = pt
+    # A point with y == 0 has order two: its tangent is vertical and 2P = O.
+    if y == y.zero():
+        return None
     m = 3 * x**2 / (2 * y)
     newx = m**2 - 2 * x
     newy = -m * newx + m * x - y
